@@ -58,6 +58,8 @@ type World struct {
 	mintAmt  *big.Int
 	Ts       uint64
 	broken   string // which invariant was deliberately violated ("" = consistent)
+	prefer   func(*World) *draft // the builder whose validator reads the broken entry
+	forced   *uinfo              // an output record the next transfer must spend
 }
 
 var ten8 = big.NewInt(100000000)
@@ -241,10 +243,13 @@ func (w *World) Break() {
 	case 0: // an output record with amount zero
 		ui := w.utxos[r.Intn(len(w.utxos))]
 		ui.u.Amount = common.Zero
+		w.forced = ui
 		w.broken = "utxo-amount"
+		w.prefer = (*World).transfer
 	case 1: // output records whose transaction is unknown
 		w.View.Txs = nil
 		w.broken = "utxo-tx"
+		w.prefer = []func(*World) *draft{(*World).nodeRemove, (*World).nodeAccept}[r.Intn(2)]
 	case 2: // the pledge output recorded as an ordinary one-key script output (opens validateNodeCancel's tail)
 		for _, ui := range w.utxos {
 			if ui.u.Type == common.OutputTypeNodePledge {
@@ -257,15 +262,39 @@ func (w *World) Break() {
 				ui.privs = []crypto.Key{kp.priv}
 			}
 		}
+		w.ensurePledging()
 		w.broken = "utxo-type"
-	case 3: // pledging node whose transaction is not stored
-		w.View.Nodes = append(w.View.Nodes, NodeRec{Signer: newKP(r).pub.String(), Payee: newKP(r).pub.String(), State: common.NodeStatePledging, Tx: randHash(r).String()})
-		w.dropPledging(true)
+		w.prefer = (*World).nodeCancel
+	case 3: // pledging node whose transaction is not stored (its output record stays)
+		ph := hexOf(w.pledge.Marshal())
+		var txs []TxRec
+		for _, t := range w.View.Txs {
+			if t.Hex != ph {
+				txs = append(txs, t)
+			}
+		}
+		w.View.Txs = txs
+		w.ensurePledging()
 		w.broken = "node-pledge-tx"
-	case 4: // pledging node pointing at a transaction that is not a pledge
+		w.prefer = (*World).nodeAccept
+	case 4: // pledging node pointing at a stored transaction that is not pledge-typed (it has a mint input)
 		w.dropPledging(false)
-		w.View.Nodes = append(w.View.Nodes, NodeRec{Signer: newKP(r).pub.String(), Payee: newKP(r).pub.String(), State: common.NodeStatePledging, Tx: w.accept.PayloadHash().String()})
+		tx := common.NewTransactionV5(common.XINAssetId)
+		tx.AddUniversalMintInput(1, integer(xinAmount(13439)))
+		tx.Outputs = append(tx.Outputs, &common.Output{Type: common.OutputTypeNodePledge, Amount: integer(xinAmount(13439)), Keys: []*crypto.Key{}})
+		tx.Extra = append([]byte{}, w.pledge.Extra...)
+		old := w.pledge.PayloadHash()
+		var us []*uinfo
+		for _, ui := range w.utxos {
+			if ui.u.Hash != old {
+				us = append(us, ui)
+			}
+		}
+		w.utxos = us
+		w.pledge = w.addSource(tx, true, nil, true)
+		w.ensurePledging()
 		w.broken = "node-pledge-type"
+		w.prefer = []func(*World) *draft{(*World).nodeAccept, (*World).nodeCancel}[r.Intn(2)]
 	case 5: // a node in a state the code does not know
 		n := NodeRec{Signer: newKP(r).pub.String(), Payee: newKP(r).pub.String(), State: "RESIGNED", Tx: randHash(r).String()}
 		if r.Bool() {
@@ -274,27 +303,43 @@ func (w *World) Break() {
 			w.View.Nodes = append(w.View.Nodes, n)
 		}
 		w.broken = "node-state"
+		w.prefer = []func(*World) *draft{(*World).nodeAccept, (*World).nodeCancel, (*World).nodePledge}[r.Intn(3)]
 	case 6:
 		w.View.Custodian = nil
 		w.broken = "no-custodian"
+		w.prefer = []func(*World) *draft{(*World).deposit, (*World).withdrawalClaim, (*World).custodianUpdate}[r.Intn(3)]
 	case 7:
 		w.View.Custodian.Nodes = append(w.View.Custodian.Nodes, w.View.Custodian.Nodes[0])
 		w.broken = "custodian-dup"
+		w.prefer = (*World).custodianUpdate
 	case 8:
-		w.View.Assets[0].Balance = "-" + w.View.Assets[0].Balance + "1"
+		for i := range w.View.Assets {
+			w.View.Assets[i].Balance = "-" + w.View.Assets[i].Balance + "1"
+		}
 		w.broken = "balance"
+		w.prefer = (*World).deposit
 	case 9: // a stored transaction without outputs, in place of the withdrawal submit
 		tx := common.NewTransactionV5(w.other)
 		tx.AddInput(randHash(r), 0)
 		w.submit = w.addSource(tx, true, nil, false)
 		w.broken = "tx-no-output"
+		w.prefer = (*World).withdrawalClaim
 	}
+}
+
+func hexOf(b []byte) string { return hex.EncodeToString(b) }
+
+// ensurePledging makes the last node entry the pledging node of w.pledge
+func (w *World) ensurePledging() {
+	w.dropPledging(false)
+	w.View.Nodes = append(w.View.Nodes, NodeRec{Signer: w.pledgeKP.pub.String(), Payee: w.payeeKP.pub.String(),
+		State: common.NodeStatePledging, Tx: w.pledge.PayloadHash().String()})
 }
 
 func (w *World) dropPledging(keepOthers bool) {
 	var ns []NodeRec
 	for _, n := range w.View.Nodes {
-		if n.State == common.NodeStatePledging && n.Tx == w.pledge.PayloadHash().String() {
+		if n.State == common.NodeStatePledging {
 			continue
 		}
 		ns = append(ns, n)
@@ -312,3 +357,5 @@ func (w *World) Snapshot() View {
 	}
 	return v
 }
+
+func signWith(k crypto.Key, h crypto.Hash) crypto.Signature { return k.Sign(h) }
